@@ -38,6 +38,10 @@ def run(chk, repo):
     chk.doc("R12.3", "progress on overflow in sendloop")
     chk.doc("R12.4", "frame index ownership")
     chk.doc("R12.5", "single consumer / single producer of send_queue")
+    # who-may-touch-the-queue first: the path rules below presuppose it
+    r5(chk, repo)
+    own_request(chk, repo)
+    blocking_reads(chk, repo)
     r1(chk, repo)
     frame_answers(chk, repo)
     every_frame(chk, repo)
@@ -45,7 +49,6 @@ def run(chk, repo):
     r2(chk, repo)
     r3_progress(chk, repo)
     r4(chk, repo)
-    r5(chk, repo)
     from . import c11
     chk.doc("R12.6", "a rejected datagram leaves the packet untouched "
                      "(Packet.append: shared with C11 R11.2)")
@@ -54,6 +57,84 @@ def run(chk, repo):
                      "carries the 'more follows' flag, by position "
                      "(Packet.assemble: shared with C11 R11.3)")
     c11.assemble_rules(chk, repo, "R12.7")
+
+
+def blocking_reads(chk, repo, rule="R12.13"):
+    """sendloop waits for the queue only when nothing is waiting in the
+    packet under construction: from one `send_queue.get()` the next one is
+    reached only through the shipping of the packet, through the branch
+    where the queue was just seen non-empty, or through the branch where
+    no datagram had been collected.  (A read that may block while
+    datagrams are pending delays them until an unrelated request
+    arrives.)"""
+    chk.doc(rule, "the queue is waited for only with nothing pending")
+    sym = ETH + "EtherCat.sendloop"
+    f = repo.func(sym)
+    cfg = CFG(f)
+    gets = [n for n in cfg.nodes if n.expr is not None and n.kind != "test"
+            and find("self.send_queue.get()", n.expr)]
+    if not gets:
+        return      # read elsewhere: R12.5 reports that
+    lst = find("$l.append(($a, $b, $f))", f)
+    lname = unparse(lst[0][1]["l"]) if len(lst) == 1 else None
+
+    rd = ReachingDefs(cfg)
+
+    def safe_edge(a, b, lab):
+        if a.expr is not None and a.kind != "test" and find(
+                "self.process_packet($*x)", a.expr):
+            return True         # shipped
+        if a.kind == "test" and lab in ("true", "false"):
+            t = a.expr
+            neg = False
+            while isinstance(t, ast.UnaryOp) and isinstance(t.op, ast.Not):
+                t, neg = t.operand, not neg
+            if isinstance(t, ast.Name) and t.id != lname:
+                # a flag that holds such a test: `sent = not dgrams`
+                ds = rd.reaching(a, t.id)
+                vals = {unparse(d.value) for d in ds
+                        if d.kind == "assign" and d.value is not None}
+                if len(ds) == 1 and len(vals) == 1:
+                    t = next(iter(ds)).value
+                    while isinstance(t, ast.UnaryOp) and isinstance(
+                            t.op, ast.Not):
+                        t, neg = t.operand, not neg
+            if match("self.send_queue.empty()", t) is not None:
+                return (lab == "true") == neg       # seen non-empty
+            if lname and match("@" + lname, t) is not None:
+                return (lab == "true") == neg       # nothing collected
+            if lname and match(f"len(@{lname}) == 0", t) is not None:
+                return (lab == "true") != neg
+        return False
+    gids = {g.id for g in gets}
+    for g in gets:
+        seen = {}
+        stack = [(g, (g,))]
+        hit = None
+        while stack and hit is None:
+            n, path = stack.pop()
+            for m_, lab in n.succ:
+                if safe_edge(n, m_, lab):
+                    continue
+                if m_.id in gids:
+                    hit = path + (m_,)
+                    break
+                if m_.id not in seen:
+                    seen[m_.id] = True
+                    stack.append((m_, path + (m_,)))
+        chk.ob(rule, sym, "the next wait for a request comes only after the "
+               "packet was shipped, the queue seen non-empty, or nothing "
+               "collected", hit is None, g.stmt,
+               "a request dropped or skipped between two reads lets the "
+               "loop wait for the queue while datagrams already appended "
+               "sit in the open packet" if hit else
+               "every path from the read to the next read ships, or tests",
+               cfg.describe_path(list(hit)) if hit else None)
+
+
+def negate_(t):
+    from ..normalize import negate
+    return negate(clone(t))
 
 
 def r3_progress(chk, repo):
@@ -78,12 +159,37 @@ def r3_progress(chk, repo):
     lname = unparse(lst[0][1]["l"])
     # the flag tested before the queue is read
     flag = None
+    guard = None        # the test whose true branch fetches a request
     for n in cfg.nodes:
-        if n.kind == "test" and isinstance(n.expr, ast.Name) and any(
-                m.id in gets for m, lab in n.succ if lab == "true"):
-            flag = n.expr.id
+        if n.kind != "test":
+            continue
+        t = n.expr
+        nm = t.id if isinstance(t, ast.Name) else None
+        b_ = match("$x is None", t) or match("$x is not None", t)
+        if nm is None and b_ is not None and isinstance(b_["x"], ast.Name):
+            nm = b_["x"].id
+        if nm is None:
+            continue
+        for m, lab in n.succ:
+            if m.id in gets and lab in ("true", "false"):
+                flag = nm
+                guard = t if lab == "true" else negate_(t)
     need(flag is not None, f"{sym}: the flag guarding the queue read was "
                            f"not found")
+
+    def guard_after(value):
+        """what the guard evaluates to once `flag = value` ran (None:
+        not known)"""
+        from ..paths import substitute, _truth
+        if isinstance(value, (ast.Tuple, ast.List)) and value.elts or \
+                isinstance(value, ast.Dict) and value.keys:
+            # a non-empty display: true, and not None
+            probe = ast.Constant(value=1)
+        elif isinstance(value, ast.Constant):
+            probe = value
+        else:
+            return None
+        return _truth(substitute(guard, {flag: probe}))
 
     def emptiness(test):
         """which edge of this test means 'no datagram was collected'"""
@@ -95,8 +201,47 @@ def r3_progress(chk, repo):
             return "false"
         return None
     appids = {n.id for n in appends}
+
+    def polarity(expr):
+        if same(expr, guard):
+            return True
+        if same(expr, negate_(guard)) or isinstance(
+                guard, ast.UnaryOp) and same(expr, guard.operand):
+            return False
+        return None
+    # the values of the guard with which the handler is entered (forward
+    # from the entry; a branch of the guard test fixes its value)
+    entry_vals = set()
+    seen0 = set()
+    st0 = [(cfg.entry, None)]
+    while st0:
+        n, val = st0.pop()
+        if (n.id, val) in seen0:
+            continue
+        seen0.add((n.id, val))
+        if n is h:
+            entry_vals.add(val)
+        if n.kind == "stmt" and isinstance(n.stmt, ast.Assign) and len(
+                n.stmt.targets) == 1 and unparse(
+                    n.stmt.targets[0]) == flag:
+            val = guard_after(n.stmt.value)
+        elif n.kind in ("stmt", "iter") and n.stmt is not None and any(
+                isinstance(x, ast.Name) and x.id == flag and isinstance(
+                    x.ctx, ast.Store) for x in ast.walk(n.stmt)
+                if n.kind == "stmt"):
+            val = None
+        for m, lab in n.succ:
+            v2 = val
+            if n.kind == "test" and lab in ("true", "false"):
+                pol = polarity(n.expr)
+                if pol is not None:
+                    out = (lab == "true") == pol
+                    if val is not None and out != val:
+                        continue
+                    v2 = out
+            st0.append((m, v2))
     seen = set()
-    stack = [(h, None, None, False, (h,))]
+    stack = [(h, v_, None, False, (h,)) for v_ in (entry_vals or {None})]
     bad = None
     failed_in_empty = []
     while stack and bad is None:
@@ -122,8 +267,8 @@ def r3_progress(chk, repo):
         if n.kind == "stmt" and isinstance(n.stmt, ast.Assign) and len(
                 n.stmt.targets) == 1:
             t = unparse(n.stmt.targets[0])
-            if t == flag and isinstance(n.stmt.value, ast.Constant):
-                forks = [(bool(n.stmt.value.value), emp)]
+            if t == flag and guard_after(n.stmt.value) is not None:
+                forks = [(guard_after(n.stmt.value), emp)]
             elif t == flag and emptiness(n.stmt.value) is not None:
                 # flag = not dgrams: the flag now *is* the emptiness test
                 em = emptiness(n.stmt.value)
@@ -138,9 +283,10 @@ def r3_progress(chk, repo):
                 continue
             e2 = emp
             if n.kind == "test":
-                if isinstance(n.expr, ast.Name) and n.expr.id == flag \
-                        and val is not None and lab in ("true", "false"):
-                    if (lab == "true") != val:
+                pol = polarity(n.expr)
+                if pol is not None and val is not None and lab in (
+                        "true", "false"):
+                    if ((lab == "true") == pol) != val:
                         continue
                 em = emptiness(n.expr)
                 if em is not None and lab in ("true", "false"):
@@ -627,6 +773,55 @@ def r4(chk, repo):
     lk = find("self.wait_futures.get($i)", g)
     chk.ob(rule, sym2, "frame future looked up by that index", len(lk) == 1,
            g, "lookup in wait_futures")
+
+
+def own_request(chk, repo, rule="R12.12"):
+    """every roundtrip() call has a future of its own and queues one
+    request carrying it: the future awaited is created in the call, and the
+    put into send_queue lies on every path to the await"""
+    chk.doc(rule, "one request, one future, one datagram")
+    sym = ETH + "EtherCat.roundtrip"
+    f = repo.func(sym)
+    chk.analysed(sym)
+    cfg = CFG(f, raises="await")
+    rd = ReachingDefs(cfg)
+    aws = [n for n in cfg.nodes if n.expr is not None and any(
+        isinstance(x, ast.Await) and isinstance(x.value, ast.Name)
+        for x in walk_expr(n.expr))]
+    need(len(aws) >= 1, f"{sym}: the await of the request's future was not "
+                        f"found")
+    for a in aws:
+        nm = [x.value.id for x in walk_expr(a.expr) if isinstance(
+            x, ast.Await) and isinstance(x.value, ast.Name)][0]
+        ds = rd.reaching(a, nm)
+        fresh = bool(ds) and all(d.kind == "assign" and match(
+            "Future()", d.value) is not None for d in ds)
+        srcs = sorted({unparse(d.value) if d.kind == "assign" and
+                       d.value is not None else d.kind for d in ds})
+        chk.ob(rule, sym, f"the future awaited (`{nm}`) is created by this "
+               f"call", fresh, a.stmt, f"`{nm}` comes from {srcs}" + (
+                   "" if fresh else ": a future shared between requests "
+                   "ties their outcomes together (cancelling one caller "
+                   "cancels the other) and the second request is never "
+                   "sent"))
+
+        def is_put(n, _nm=nm):
+            return n.expr is not None and any(
+                isinstance(c, ast.Call) and isinstance(
+                    c.func, ast.Attribute) and c.func.attr in (
+                        "put_nowait", "put") and "send_queue" in unparse(
+                            c.func.value) and any(
+                                isinstance(x, ast.Name) and x.id == _nm
+                                for arg in c.args for x in ast.walk(arg))
+                for c in walk_expr(n.expr))
+        ok = cfg.must_pass(cfg.entry, is_put, targets=[a])
+        path = None
+        if not ok:
+            w = cfg.witness_path(cfg.entry, is_put, targets=[a])
+            path = cfg.describe_path(w) if w else None
+        chk.ob(rule, sym, "every path to the await queues a request "
+               "carrying that future", ok, a.stmt, "send_queue.put_nowait("
+               "... future) before `await future`", path)
 
 
 def r5(chk, repo):
